@@ -10,6 +10,7 @@ import (
 	"sort"
 	"strings"
 	"sync/atomic"
+	"syscall"
 	"testing"
 	"time"
 
@@ -23,6 +24,7 @@ type vfLsEntry struct {
 	Perm  uint32
 	Mtime int64
 	Ext   []vfExt `json:",omitempty"` // extended attributes reported by the lister (request server)
+	Wraps bool    `json:",omitempty"` // the entry wraps a real file: Sys() is a *syscall.Stat_t with another owner, which the callbacks override (seed C16-d)
 }
 
 // vfMemInfoExt is a listed entry that also reports extended attributes.
@@ -94,6 +96,7 @@ func vfGenC16(t *rapid.T) vfCaseC16 {
 			if rapid.IntRange(0, 3).Draw(t, "hasext") == 0 {
 				e.Ext = vfGenExts(t, "ext", 3)
 			}
+			e.Wraps = rapid.IntRange(0, 3).Draw(t, "wraps") == 0
 		}
 		c.Entries = append(c.Entries, e)
 	}
@@ -125,6 +128,9 @@ func vfRunC16(ctx *vfCtx, c vfCaseC16) {
 		var fis []os.FileInfo
 		for _, e := range c.Entries {
 			mi := vfMemInfo{name: string(e.Name), size: e.Size, mode: vfRefToFileMode(0o100000 | e.Perm), mtime: e.Mtime, uid: 7, gid: 8}
+			if e.Wraps {
+				mi.sys = &syscall.Stat_t{Uid: 4242, Gid: 4343, Nlink: 3}
+			}
 			if len(e.Ext) > 0 {
 				fis = append(fis, vfMemInfoExt{mi, e.Ext})
 			} else {
